@@ -45,6 +45,9 @@ pub assume_specification<T>[ Sender::<T>::send ](s: &Sender<T>, t: T) -> (r: Res
         res is Err ==> final(self).remaining() == old(self).remaining(),
         // at the boundary: end-of-stream, the inner source is not touched
         old(self).remaining() == 0 ==> res is Ok && res->Ok_0 == 0 && *final(self).inner() == *old(self).inner(),
+        // O-REL-2 (C09): however much of the body the application reads, the position at which the source will be
+        // handed to the next request does not move
+        res is Ok ==> final(self).release_pos() == old(self).release_pos(),   // [C09]
 //@endfn
 //@endimpl
 
@@ -55,6 +58,9 @@ pub assume_specification<T>[ Sender::<T>::send ](s: &Sender<T>, t: T) -> (r: Res
         // O-DRAIN (C09): unless the source failed or ended early, exactly the unread remainder was discarded
         !final(self).inner().failed() && old(self).inner().stream().len() >= old(self).remaining()
             ==> final(self).inner().stream() == old(self).inner().stream().skip(old(self).remaining() as int),
+        // ... i.e. the drop realises release()
+        !final(self).inner().failed() && old(self).inner().stream().len() >= old(self).remaining()
+            ==> final(self).inner().stream() == old(self).release_pos(),
 //@loop 1
         invariant
             remaining_to_read <= self.size,
@@ -87,6 +93,21 @@ pub assume_specification<T>[ Sender::<T>::send ](s: &Sender<T>, t: T) -> (r: Res
         // a zero-length read says nothing about end-of-stream (std::io::Read) and must change nothing
         old(buf)@.len() == 0 && res is Ok ==> final(self).inner() is Some == old(self).inner() is Some,
         old(self).inner() is Some && res is Ok && res->Ok_0 > 0 ==> final(self).inner() is Some,
+//@endfn
+//@endimpl
+
+//@impl src/util/fused_reader.rs "Drop for FusedReader<R>" inherent required
+#[verifier::exec_allows_no_decreases_clause]
+//@fn drop as drop_body props C09,C14,C15
+//@spec
+    ensures
+        // O-FUSED-DRAIN (C09): whatever the application left unread of the inner reader is read and discarded
+        // (so an inner reader whose end-of-stream consumes framing bytes, like the chunk decoder, gets there)
+        old(self).inner() is Some ==> final(self).inner() is Some
+            && (final(self).inner()->Some_0.failed() || final(self).inner()->Some_0.stream().len() == 0),
+        old(self).inner() is None ==> final(self).inner() is None,
+//@loop 1
+                ensures (*r).failed() || (*r).stream().len() == 0,
 //@endfn
 //@endimpl
 
